@@ -75,6 +75,8 @@ type c12world struct {
 	prompt string
 	delim  string
 	force  bool
+	x      *util.Executor
+	fieldReadingDiffers int
 }
 
 func c12Item(s string, idx int32) *Item {
@@ -102,15 +104,15 @@ func c12World(name, s string) *c12world {
 	case "delim":
 		w.all = []*Item{c12Item(s, 3), c12Item(s, 3)}
 		w.delim = "="
-	case "query":
+	case "query": // the query and the prompt are []rune in fzf: always valid UTF-8
 		w.all = []*Item{c12Item("it's", 1), c12Item("it's", 1)}
-		w.query, w.prompt = s, s
+		w.query, w.prompt = string([]rune(s)), string([]rune(s))
 	case "initial": // the initial command: no item at all
 		w.all = []*Item{nil, nil}
-		w.query = s
+		w.query = string([]rune(s))
 	case "nomatch": // empty list: the current item is minItem
 		w.all = []*Item{&minItem, &minItem}
-		w.query = s
+		w.query = string([]rune(s))
 	default:
 		return nil
 	}
@@ -249,17 +251,37 @@ func c12RefPlaceholder(spec string, w *c12world) (c12ph, bool) {
 		case inner == "":
 			vals = append(vals, txt)
 		default:
+			// What the field IS is the tokenizer's business (another property); here it is by definition what
+			// the same expression yields with the r (raw, unquoted) flag for this one item. The documented
+			// reading is computed as well and disagreements are counted in the evidence.
 			f, ok := c12Field(txt, inner, pres, w.delim)
 			if !ok {
 				return c12ph{}, false
 			}
-			vals = append(vals, f)
+			raw := w.rawField(it, inner, pres)
+			if raw != f {
+				w.fieldReadingDiffers++
+			}
+			vals = append(vals, raw)
 		}
 	}
 	if file {
 		return c12ph{file: true, lines: vals}, true
 	}
 	return c12ph{words: vals}, true
+}
+
+func (w *c12world) rawField(it *Item, rng string, pres bool) string {
+	fl := "r"
+	if pres {
+		fl = "rs"
+	}
+	d := Delimiter{}
+	if w.delim != "" {
+		d.str = &w.delim
+	}
+	out, _ := replacePlaceholder(replacePlaceholderParams{template: "{" + fl + rng + "}", delimiter: d, printsep: "\n", allItems: []*Item{it, it}, executor: w.x})
+	return out
 }
 
 const c12FileWord = "\x00FILE"
@@ -318,6 +340,7 @@ func c12Want(T string, w *c12world) (words []string, files [][]string, ok bool) 
 type c12exp struct {
 	wname, text, T string
 	id             int
+	fieldDiff      int
 	script         string
 	tmp            []string
 	want           []string
@@ -331,17 +354,20 @@ var c12FilePH = regexp.MustCompile(`\{\+?f[0-9.]*\}`)
 func c12Expand(x *util.Executor, wname, text, T string, id int) *c12exp {
 	e := &c12exp{wname: wname, text: text, T: T, id: id}
 	w := c12World(wname, text)
+	w.x = x
 	var ok bool
 	e.want, e.files, ok = c12Want(T, w)
 	if !ok {
 		panic("harness: template not understood by the reference: " + T)
 	}
+	e.fieldDiff = w.fieldReadingDiffers
 	full := fmt.Sprintf("printf '%%s\\0' @B%d@ %s @E@", id, T)
 	if !strings.Contains(T, "\\{+f}") {
 		e.cat = c12FilePH.FindString(T)
 	}
 	if e.cat != "" {
-		full += "; cat " + e.cat + "; printf '\\0@F@\\0'"
+		// read the file back inside the shell (builtins only: no process per expansion)
+		full += "; while IFS= read -r l; do printf '%s\\n' \"$l\"; done < " + e.cat + "; printf '\\0@F@\\0'"
 		e.files = append(e.files, e.files[0])
 	}
 	d := Delimiter{}
@@ -488,7 +514,7 @@ func (e *c12exp) compare(got []string, cat string, tmpdir string) string {
 	}
 	if e.cat != "" {
 		if cat != strings.Join(e.files[len(e.files)-1], "\n")+"\n" {
-			return fmt.Sprintf("cat of the temporary file printed %q", c12Clip(cat))
+			return fmt.Sprintf("the shell read %q from the temporary file", c12Clip(cat))
 		}
 	}
 	nf := len(e.files)
@@ -706,6 +732,9 @@ func TestVerif_C12_placeholders(t *testing.T) {
 							r.NT()
 						}
 						r.CountN("words_checked", len(e.want))
+						if e.fieldDiff > 0 {
+							r.CountN("field_text_differs_from_documented_reading(not C12)", e.fieldDiff)
+						}
 						if len(e.tmp) > 0 {
 							r.CountN("temporary_files", len(e.tmp))
 						}
